@@ -10,6 +10,7 @@ import (
 	"runtime"
 	"sync"
 	"testing"
+	"time"
 
 	"github.com/gregoryv/mq"
 	"pgregory.net/rapid"
@@ -167,6 +168,9 @@ func checkC13(c caseC13) (sig, msg string) {
 
 func TestC13(t *testing.T) {
 	curProp = "C13"
+	// one guarded "call" is a whole case here: up to 8 goroutines x 6
+	// operations x 5 repetitions under the race detector
+	guard.HangTime = 120 * time.Second
 	r := vf.NewRec("C13")
 	defer r.Finish(t)
 	guard.StartWatchdog(*vf.Out, "C13")
@@ -210,6 +214,11 @@ func TestC13(t *testing.T) {
 			typ = model.PUBLISH
 		}
 		m := genC01(t, typ)
+		if len(m.Payload) > 100000 {
+			// megabyte payloads (the 4-byte remaining-length class) only make
+			// every copy under the race detector slow; races do not depend on size
+			m.Payload = m.Payload[:1000]
+		}
 		plan := drawPlan(t, &m)
 		g := rapid.IntRange(2, 8).Draw(t, "goroutines")
 		c := caseC13{ModelGob: packModel(m), Model: m.String(), Plan: plan, Reps: 5}
